@@ -503,6 +503,19 @@ class SVG:
         # capture elements by id so even if we change it they remain stable
         el_by_id = {el.attrib["id"]: el for el in self.xpath(".//svg:*[@id]")}
 
+        # an element that (transitively) instantiates itself would expand forever
+        href = _xlink_href_attr_name()
+        pending = {
+            el_id: {u.attrib.get(href, "")[1:] for u in el.iter(f"{{{svgns()}}}use")}
+            for el_id, el in el_by_id.items()
+        }
+        while pending:
+            resolvable = [k for k, refs in pending.items() if not refs & pending.keys()]
+            if not resolvable:
+                raise ValueError(f"Circular use references among {sorted(pending)}")
+            for k in resolvable:
+                del pending[k]
+
         while True:
             swaps = []
             use_els = list(self.xpath(".//svg:use", el=scope_el))
